@@ -142,3 +142,33 @@ CHECKS['C19'] = dict(
                  'RealDouble NaN payloads are not generated (NaN != NaN makes eq undefined for them)',
                  'sampling, not proof'],
 )
+
+CHECKS['C20'] = dict(
+    variants=['asan'],
+    targets=['build/bin/c20'],
+    binaries=['build/bin/c20'],
+    quick=dict(runs=4000, workers=16, chunk=20, wall_cap=600),
+    thorough=dict(runs=100000, workers=16, chunk=20, wall_cap=3000),
+    run_timeout=60,
+    stop_after_violations=60,
+    max_reported=40,
+    shrink_keys=['ops', 'faults', 'pool'],
+    expected_probes=['bitflip', 'byte', 'trunc', 'zero_sector', 'dup_sector', 'splice', 'field',
+                     'damaged_dump_loaded', 'damaged_dump_rejected', 'allocation_over_budget_refused'],
+    rule=('one run = an expression pool of 2-12 DAG nodes over every serialisable class, dumped through the archive '
+          'templates with the write (= field) boundaries recorded and address keys normalised, then 3-33 loads of a '
+          'dump that crossed the storage fault layer with 1-3 faults: bit flip, byte overwrite, truncation (torn '
+          'write), zero-filled sector of 8/64/512 bytes (lost write), sector copied over another offset '
+          '(misdirected write), splice of two dumps (misdirected read), and field-targeted damage (count/length '
+          '+-1, 0, huge, max; type code; first-seen flag; sharing key swapped with another field), through '
+          'Basic::loads or the input archive with short reads, under a memory budget of 64 MB per request / 512 MB '
+          'live. Non-trivial = at least one load of bytes that really differ from the valid dump; distinct = '
+          'distinct event-log hash.'),
+    state_measure='other_counters lists (field kind, damage kind) pairs hit',
+    components=dict(real=REAL_COMMON + ['serialize-cereal.h input/output archives', 'Basic::loads', 'str / hash / eq / __cmp__ / eval_double on returned expressions'],
+                    stub=['storage between dumps and loads (fault layer)', 'global operator new/delete (memory budget)', 'std::streambuf under the archives']),
+    assumptions=['only mutations of valid dumps are explored (the property\'s stated quantifier), not arbitrary byte strings',
+                 'memory budget: a request over 64 MB or total over 512 MB raises std::bad_alloc, as on a finite machine',
+                 'address keys are normalised to small numbers so that a run does not depend on the heap layout',
+                 'ASan/UBSan report every memory error / UB executed', 'sampling, not proof'],
+)
